@@ -5,16 +5,6 @@ From Gen Require Import M_base M_Angle M_Epoch.
 From Proofs.C14 Require Import C14_tac.
 Import ListNotations.
 Open Scope R_scope.
-Ltac zsimp :=
-  repeat match goal with
-  | |- context [IZR ?z] =>
-      lazymatch z with
-      | Z0 => fail | Zpos _ => fail | Zneg _ => fail
-      | context [Rfloor _] => fail
-      | _ => let z' := eval vm_compute in z in progress change (IZR z) with (IZR z')
-      end
-  end.
-Ltac zlra := first [ pylra | zsimp; pylra ].
 Ltac floor_step :=
   match goal with
   | |- context [Rfloor ?x] =>
